@@ -108,10 +108,10 @@ theorem ctx_reaches_every_link {κ ρ} (h : Handler κ (List (Option κ) × ρ))
   exact nextRun_spies h ctx n req
 
 /-- Why the extracted fact matters: were the inner `Next` rebuilt without the context, every link
-after the first would see `None` and the leaf would be entered through `handle`. -/
+would see `None` and the leaf would be entered through `handle`. -/
 theorem ctx_lost_without_forwarding {κ ρ} (h : Handler κ (List (Option κ) × ρ)) (c : κ) (n : Nat) (req : Msg) :
     nextRun false h (some c) (List.replicate (n + 1) spyMw) req =
-      (some c :: List.replicate n none ++ (h.handle req).1, (h.handle req).2) :=
+      (List.replicate (n + 1) none ++ (h.handle req).1, (h.handle req).2) :=
   nextRun_spies_dropped h c n req
 
 /-- The dispatched form of an entry (`wrap_with_middlewares`, with the source's `execution` rule):
